@@ -118,6 +118,13 @@ func c04Methods(tier string) []string {
 			out = append(out, full, n+m, n+"x."+m, strings.ToUpper(n)+"."+m, n[:len(n)-1]+"."+m, n+"..", "."+full, full+".", " "+full, n+" ."+m)
 		}
 	}
+	// characters that mean something to path/URL/printf helpers a router might be rewritten with
+	for _, n := range append(append([]string(nil), c04Names...), "org.varlink.service", "zz") {
+		for _, m := range []string{"Pi/ng", "/", "a/b.c", "M/", "/M", "Get/Info", "%s", "M%", "M?x", "M#f", "M:1", "..", "M\\N", "M\tN", "M\n", "*", "M;N", "M N"} {
+			out = append(out, n+"."+m)
+		}
+		out = append(out, n+"/x.M", strings.Replace(n, ".", "/", 1)+".M")
+	}
 	out = append(out, "org.varlink.service.GetInfo", "org.varlink.service.GetInterfaceDescription", "org.varlink.service.getinfo", "org.varlink.service.GetInfo.x", "org.varlink.service..GetInfo",
 		"org.varlink.service.Nope", "org.varlink.service.", "org.varlink.service", "org.varlink.Service.GetInfo", strings.Repeat("a.", 3000)+"M", "a\x00.b", "a.b\x00", "\"", "\\.\\")
 	c04Strings = out
@@ -164,7 +171,11 @@ func c04Body(d c04Desc, tier string) func() {
 				c.Write([]byte(f + "\x00"))
 				// a follow-up call shows whether the connection is still usable
 				c.Write([]byte(`{"method":"org.varlink.service.GetInfo"}` + "\x00"))
-				c.CloseWrite()
+				if _, isCall := classifyCall(f); isCall {
+					c.CloseWrite()
+				}
+				// after a frame that is not a call the client keeps its side open: the service itself must end
+				// the connection (the read below returns only then)
 				var replies []string
 				for {
 					r, ok := p.readFrame()
